@@ -538,6 +538,19 @@ def cases(rng, tier):
                 if rng.random() < 0.3:
                     yield {"kind": "joined", "k": kind, "pats": [py_normalize(p.lstrip("!")) for p in pats
                                                                 if not py_opaque(p)][:rng.randint(1, 6)]}
+    # 6b. ignore files through breezy.ignores.parse_ignore_file (a set: only ignored-ness is observed)
+    for _ in range(120 if quick else 2500):
+        lines = []
+        for _i in range(rng.randint(1, 8)):
+            r = rng.random()
+            if r < 0.1:
+                lines.append("# " + gen_pattern(rng))
+            elif r < 0.17:
+                lines.append("")
+            else:
+                lines.append(rng.choice(["", "", "", "!", "!!"]) + gen_pattern(rng) + rng.choice(["", "", "\r", "/"]))
+        pats = [l for l in lines if l.rstrip("\r") and not l.startswith("#")]
+        yield {"kind": "ignorefile", "lines": lines, "names": names_for(rng, [p.rstrip("\r") for p in pats], 8)}
     # 8. opaque patterns (RE:, named classes): oracle only (Python re as the reference), model skipped
     for _ in range(60 if quick else 1500):
         pats = [gen_pattern(rng) for _ in range(rng.randint(0, 3))]
@@ -592,6 +605,12 @@ def impl(inp):
         if not py_wf(n):
             return [False, []]
         return [True, [py_glob_match(n, x) for x in inp["names"]]]
+    if kd == "ignorefile":
+        import io
+        from breezy import ignores
+        pats = ignores.parse_ignore_file(io.BytesIO("\n".join(inp["lines"]).encode("utf-8")))
+        g = globbing.ExceptionGlobster(pats)
+        return [sorted(pats), [_guard(lambda: g.match(x)) for x in inp["names"]]]
     if kd == "raw":
         g = globbing.Globster([])
         tr, pre = _translator(inp["k"])
@@ -639,6 +658,11 @@ def impl_obs(inp, obs):
         return [True, obs] if ok else [False, []]
     if kd == "match":
         return [True, obs] if _all_wf(inp) else [False, []]
+    if kd == "ignorefile":
+        fake = {"mode": "exc", "pats": obs[0]}
+        if not _all_wf(fake):
+            return [False, []]
+        return [True, [x if isinstance(x, Err) else (x is not None) for x in obs[1]]]
     return obs
 
 
@@ -659,6 +683,8 @@ def model_term(inp):
     names = coq_list(inp["names"], _cs)
     if kd == "ref":
         return f"run_ref {_cs(inp['p'])} {names}"
+    if kd == "ignorefile":
+        return f"run_ignorefile {coq_list(inp['lines'], _cs)} {names}"
     if kd == "raw":
         return f"run_raw {KINDS[inp['k']]} {_cs(inp['p'])} {names}"
     f = {"plain": "run_match", "exc": "run_exc", "ordered": "run_ordered"}[inp["mode"]]
@@ -699,6 +725,13 @@ def oracle(inp, obs):
             if isinstance(r, Err) or (r is not None) != exp:
                 return f"raw {inp['k']} pattern {p!r}: name {name!r} -> {r!r}, documented semantics says match={exp}"
         return None
+    if inp["kind"] == "ignorefile":
+        # what the harness itself reads in the file: non-empty, non-comment lines
+        want = {py_normalize(l.rstrip("\r\n")) for l in inp["lines"] if l.rstrip("\r\n") and not l.startswith("#")}
+        if set(obs[0]) != want:
+            return f"parse_ignore_file returned {sorted(obs[0])!r}, the file contains {sorted(want)!r}"
+        inp = {"kind": "match", "mode": "exc", "pats": sorted(obs[0]), "names": inp["names"], "_bool": True}
+        obs = obs[1]
     if inp["kind"] != "match":
         return None
     lists = _norm_lists(inp)
@@ -710,6 +743,11 @@ def oracle(inp, obs):
         if isinstance(r, Err):
             return f"well-formed patterns raise {r} on {name!r}"
         m = [[p for p in l if _matches(p, name)] for l in lists]
+        if inp.get("_bool"):
+            exp = bool(m[2]) or (not m[1] and bool(m[0]))
+            if (r is not None) != exp:
+                return f"ignore file {inp['pats']!r}: {name!r} ignored={r is not None}, documented semantics says {exp}"
+            continue
         if inp["mode"] == "exc":
             if m[2]:
                 ok = r is not None and r.startswith("!!") and r[2:] in m[2]
@@ -740,6 +778,8 @@ def finding_matches(fid, inp, obs, why):
 
 
 def nontrivial(inp, obs):
+    if inp["kind"] == "ignorefile" and isinstance(obs, list):
+        return any(o is None for o in obs[1]) and any(o is not None for o in obs[1])
     if inp["kind"] in ("match", "raw") and isinstance(obs, list):
         return any(o is None for o in obs) and any(o is not None for o in obs)
     return inp["kind"] in ("translate", "sub") and any(c in inp["p"] for c in "*?[")
